@@ -51,6 +51,7 @@ type Frame struct {
 	nonNil   map[ssa.Value]*ssa.BasicBlock
 	frame    *frameSpec
 	callCount map[string]int
+	frameExtra string
 }
 
 type deferred struct {
@@ -447,7 +448,7 @@ func (u *Unit) assumeRange(t string, typ types.Type) {
 		u.emit(fmt.Sprintf("(assert (and (<= %s %s) (<= %s %s)))", lo, t, t, hi))
 	}
 	if _, ok := typ.Underlying().(*types.Slice); ok {
-		u.emit(fmt.Sprintf("(assert (and (>= (sl.len %s) 0) (>= (sl.off %s) 0) (>= (sl.base %s) 0)))", t, t, t))
+		u.emit(fmt.Sprintf("(assert (and (>= (sl.len %s) 0) (>= (sl.off %s) 0) (>= (sl.base %s) 0) (=> (= (sl.base %s) 0) (= (sl.len %s) 0))))", t, t, t, t, t))
 	}
 	if _, ok := typ.Underlying().(*types.Pointer); ok {
 		u.emit(fmt.Sprintf("(assert (>= %s 0))", t))
@@ -795,7 +796,7 @@ func (u *Unit) wellFormedLoaded(h *Heap, t string, typ types.Type) {
 	case *types.Pointer, *types.Map:
 		u.emit(fmt.Sprintf("(assert (and (>= %s 0) (<= %s %s)))", t, t, u.top(h)))
 	case *types.Slice:
-		u.emit(fmt.Sprintf("(assert (and (>= (sl.len %s) 0) (>= (sl.off %s) 0) (>= (sl.base %s) 0) (<= (sl.base %s) %s)))", t, t, t, t, u.top(h)))
+		u.emit(fmt.Sprintf("(assert (and (>= (sl.len %s) 0) (>= (sl.off %s) 0) (>= (sl.base %s) 0) (<= (sl.base %s) %s) (=> (= (sl.base %s) 0) (= (sl.len %s) 0))))", t, t, t, t, u.top(h), t, t))
 	case *types.Interface:
 		u.emit(fmt.Sprintf("(assert (and (>= (if.typ %s) 0) (=> (= (if.typ %s) 0) (= (if.val %s) 0))))", t, t, t))
 	case *types.Basic:
